@@ -2,7 +2,7 @@
    on the inputs the harness ran through the Go implementation and compares
    with what the implementation returned. *)
 From BU Require Export Lib.Bytes.
-From BU Require Import Lib.Sha256 Base58.Base58 Bech32.Bech32.
+From BU Require Import Lib.Sha256 Lib.Slice Base58.Base58 Bech32.Bech32 Bech32.Purity.
 
 Inductive case :=
 | Sha (msg out : list N)                                  (* crypto/sha256 vs Lib.Sha256 *)
@@ -12,7 +12,8 @@ Inductive case :=
 | ChkDec (s : list N) (cls : N) (payload : list N) (ver : N)   (* base58.CheckDecode: cls 0 ok, 1 format, 2 checksum *)
 | BechDec (s : list N) (ok : bool) (hrp data : list N)    (* bech32.Decode: accepted?, hrp, data *)
 | BechEnc (hrp data : list N) (ok : bool) (out : list N)  (* bech32.Encode *)
-| Conv (data : list N) (fromBits toBits : N) (pad : bool) (ok : bool) (out : list N). (* bech32.ConvertBits *)
+| Conv (data : list N) (fromBits toBits : N) (pad : bool) (ok : bool) (out : list N) (* bech32.ConvertBits *)
+| PureEnc (hrp data : list N) (spare : nat) (after : list N).  (* caller's backing array (len+spare bytes, spare filled with 0xA5) after bech32.Encode *)
 
 Definition check (c : case) : bool :=
   match c with
@@ -44,6 +45,10 @@ Definition check (c : case) : bool :=
       | Err _ => negb ok
       | Panic _ => false
       end
+  | PureEnc hrp data spare after =>
+      let h := [data ++ repeat 165 spare] in
+      let s := {| s_arr := 0; s_off := 0; s_len := length data; s_cap := length data + spare |} in
+      list_eqb (arr (fst (encode_mem h s (create_checksum hrp data))) 0) after
   end.
 
 Fixpoint mism (i : nat) (cs : list case) : list nat :=
